@@ -64,7 +64,8 @@ type wframe struct {
 type park struct {
 	point   string
 	rid     int
-	nth     int // which occurrence (0 = first)
+	fid     int64 // for the points of the fid table: the fid number (rid is -1)
+	nth     int   // which occurrence (0 = first)
 	seen    int
 	reached chan bool
 	release chan bool
@@ -72,34 +73,56 @@ type park struct {
 }
 
 type lifeSess struct {
-	srv       *g.Srv
-	c         net.Conn
-	conn      *g.Conn
-	ops       *lifeOps
-	cap       int
-	mu        sync.Mutex
-	toks      []string
-	rids      map[*g.SrvReq]int
-	reqs      []*lreq
-	plans     map[int]plan // by position in the order of arrival
-	relset    map[int]bool // released before they arrived
-	parks     []*park
-	takes     []int
-	clock     int64
-	fr        []wframe
-	frc       chan int
-	rdone     chan bool
-	closed    int32 // ConnClosed calls
-	destroyed []uint32
-	perturb   func(point string)
-	logClosed bool
-	paused    int32 // the client has stopped reading replies
+	srv        *g.Srv
+	c          net.Conn
+	conn       *g.Conn
+	ops        *lifeOps
+	cap        int
+	mu         sync.Mutex
+	toks       []string
+	rids       map[*g.SrvReq]int
+	reqs       []*lreq
+	plans      map[int]plan // by position in the order of arrival
+	relset     map[int]bool // released before they arrived
+	parks      []*park
+	takes      []int
+	clock      int64
+	fr         []wframe
+	frc        chan int
+	rdone      chan bool
+	closed     int32 // ConnClosed calls
+	destroyed  []uint32
+	fobj       map[*g.SrvFid]int // fid objects in the order FidNew created them
+	ftoks      []string          // the regions of the fid table, in the order they ran
+	frel       map[*g.SrvFid]int // "the next DecRef of this fid releases the table's reference"
+	fnd        map[int]int       // FidDestroy calls the file server received, by object
+	closeEnd   chan bool         // closed when Conn.close has returned
+	closeEnded bool
+	perturb    func(point string)
+	logClosed  bool
+	paused     int32 // the client has stopped reading replies
 }
 
 func (s *lifeSess) tick() int64 { return atomic.AddInt64(&s.clock, 1) }
 
 func (s *lifeSess) tok(format string, a ...interface{}) {
 	s.toks = append(s.toks, fmt.Sprintf(format, a...))
+}
+
+func (s *lifeSess) ftok(format string, a ...interface{}) {
+	s.ftoks = append(s.ftoks, fmt.Sprintf(format, a...))
+}
+
+// fidOf names a fid object by its position in the order of creation ("-": nil, "?": not seen created).
+func (s *lifeSess) fidOf(x interface{}) string {
+	f, ok := x.(*g.SrvFid)
+	if !ok || f == nil {
+		return "-"
+	}
+	if id, ok := s.fobj[f]; ok {
+		return fmt.Sprint(id)
+	}
+	return "?"
 }
 
 func bitsStr(st int) string {
@@ -158,9 +181,63 @@ func lifeHook(point string, args []interface{}) {
 	if s == nil {
 		return
 	}
-	if strings.HasPrefix(point, "@") || point == "send.take" || point == "close.begin" {
+	if point == "close.end" {
+		s.mu.Lock()
+		if !s.closeEnded {
+			s.closeEnded = true
+			close(s.closeEnd)
+		}
+		s.mu.Unlock()
+		return
+	}
+	if strings.HasPrefix(point, "@") || point == "send.take" || point == "close.begin" || point == "close.done" ||
+		point == "fid.release" || point == "fid.destroy.call" {
 		s.mu.Lock()
 		switch point {
+		case "@fid.new":
+			f := args[1].(*g.SrvFid)
+			id := len(s.fobj)
+			s.fobj[f] = id
+			s.ftok("N:%d:%d", g.VerifFidNo(f), id)
+		case "@fid.lookup":
+			s.ftok("L:%d:%s", args[1].(uint32), s.fidOf(args[2]))
+		case "@fid.get":
+			s.ftok("G:%s:%s:%d", s.fidOf(args[1]), b2s(args[2].(bool)), args[3].(int))
+		case "@fid.retain":
+			s.ftok("R:%s:%s:%d", s.fidOf(args[1]), b2s(args[2].(bool)), args[3].(int))
+		case "@fid.inc":
+			s.ftok("I:%s:%d", s.fidOf(args[1]), args[2].(int))
+		case "fid.release":
+			if f, ok := args[1].(*g.SrvFid); ok && f != nil {
+				s.frel[f]++
+			}
+		case "@fid.dec":
+			f, _ := args[1].(*g.SrvFid)
+			t := false
+			if s.frel[f] > 0 {
+				s.frel[f]--
+				t = true
+			}
+			s.ftok("D:%s:%s:%d", s.fidOf(args[1]), b2s(t), args[2].(int))
+		case "@fid.unpool":
+			s.ftok("U:%s:%s", s.fidOf(args[1]), b2s(args[2].(bool)))
+		case "@fid.destroy":
+			s.ftok("X:%s:%s", s.fidOf(args[1]), b2s(args[2].(bool)))
+		case "fid.destroy.call":
+			s.ftok("C:%s", s.fidOf(args[1]))
+		case "close.done":
+			s.ftok("K")
+		case "@close.snapshot":
+			var ids []string
+			for _, f := range args[1].([]*g.SrvFid) {
+				ids = append(ids, s.fidOf(f))
+			}
+			if len(ids) == 0 {
+				ids = []string{"-"}
+			}
+			s.ftok("S:%s", strings.Join(ids, ","))
+		case "@close.visit":
+			s.ftok("V:%s:%s", s.fidOf(args[1]), b2s(args[2].(bool)))
 		case "@recv":
 			r := args[0].(*g.SrvReq)
 			id := len(s.reqs)
@@ -228,6 +305,35 @@ func (s *lifeSess) parkAt(point string, args []interface{}) {
 	if p := s.perturb; p != nil {
 		p(point)
 	}
+	if _, isConn := args[0].(*g.Conn); isConn && len(args) > 1 {
+		// a point of the fid table: parks are keyed by fid number
+		f, ok := args[1].(*g.SrvFid)
+		if !ok || f == nil {
+			return
+		}
+		no := int64(g.VerifFidNo(f))
+		s.mu.Lock()
+		var hit *park
+		for _, p := range s.parks {
+			if !p.used && p.rid == -1 && p.point == point && p.fid == no {
+				if p.seen == p.nth {
+					p.used = true
+					hit = p
+				}
+				p.seen++
+				break
+			}
+		}
+		s.mu.Unlock()
+		if hit != nil {
+			close(hit.reached)
+			select {
+			case <-hit.release:
+			case <-time.After(20 * time.Second):
+			}
+		}
+		return
+	}
 	r, ok := args[0].(*g.SrvReq)
 	if !ok {
 		return
@@ -260,6 +366,15 @@ func (s *lifeSess) parkAt(point string, args []interface{}) {
 // parkRule parks the goroutine handling request rid (in arrival order) at its nth passage of point.
 func (s *lifeSess) parkRule(point string, rid, nth int) *park {
 	p := &park{point: point, rid: rid, nth: nth, reached: make(chan bool), release: make(chan bool)}
+	s.mu.Lock()
+	s.parks = append(s.parks, p)
+	s.mu.Unlock()
+	return p
+}
+
+// parkFidRule parks the goroutine that reaches a point of the fid table for fid number no, the nth time.
+func (s *lifeSess) parkFidRule(point string, no uint32, nth int) *park {
+	p := &park{point: point, rid: -1, fid: int64(no), nth: nth, reached: make(chan bool), release: make(chan bool)}
 	s.mu.Lock()
 	s.parks = append(s.parks, p)
 	s.mu.Unlock()
@@ -451,6 +566,11 @@ func (o *lifeOps) FidDestroy(f *g.SrvFid) {
 	}
 	s.mu.Lock()
 	s.destroyed = append(s.destroyed, g.VerifFidNo(f))
+	if id, ok := s.fobj[f]; ok {
+		s.fnd[id]++
+	} else {
+		s.fnd[-1]++
+	}
 	s.mu.Unlock()
 }
 func (o *lifeOps) ConnOpened(*g.Conn) {}
@@ -502,6 +622,7 @@ func newLifeSess(msize uint32, maxpend int, flushOp bool) *lifeSess {
 // connectLife opens one more connection to srv.
 func connectLife(srv *g.Srv, o *lifeOps, maxpend int) *lifeSess {
 	s := &lifeSess{srv: srv, ops: o, cap: maxpend, rids: map[*g.SrvReq]int{}, plans: map[int]plan{}, relset: map[int]bool{},
+		fobj: map[*g.SrvFid]int{}, frel: map[*g.SrvFid]int{}, fnd: map[int]int{}, closeEnd: make(chan bool),
 		frc: make(chan int, 4096), rdone: make(chan bool)}
 	a, b := net.Pipe()
 	s.c = b
@@ -662,6 +783,37 @@ func (s *lifeSess) logLine() string {
 	s.mu.Lock()
 	defer s.mu.Unlock()
 	return fmt.Sprintf("life %d %s", s.cap, strings.Join(s.toks, " "))
+}
+
+// the regions of the fid table for the acceptor of G9.FidLife; ended: every goroutine of the
+// connection is gone, so the model's end state must be quiescent with every fid destroyed once
+func (s *lifeSess) fidLine(ended bool) string {
+	s.mu.Lock()
+	defer s.mu.Unlock()
+	e := "-"
+	if ended {
+		e = "q"
+	}
+	return fmt.Sprintf("fidlife %s %s", e, strings.Join(s.ftoks, " "))
+}
+
+// what the file server saw: FidDestroy calls per fid object
+func (s *lifeSess) fidObs() string {
+	s.mu.Lock()
+	defer s.mu.Unlock()
+	nd := make([]string, len(s.fobj))
+	for i := range nd {
+		nd[i] = fmt.Sprint(s.fnd[i])
+	}
+	x := ""
+	if s.fnd[-1] > 0 {
+		x = fmt.Sprintf(" unknown=%d", s.fnd[-1])
+	}
+	l := "~"
+	if len(nd) > 0 {
+		l = strings.Join(nd, ",")
+	}
+	return fmt.Sprintf("ok n=%d nd=%s%s", len(s.fobj), l, x)
 }
 
 func (s *lifeSess) modelObs() string {
